@@ -30,7 +30,7 @@ class C12(Harness):
         for feat in ('full', 'nd'):
             out.append({'feat': feat, 'mode': 'split_points', 'split': 'H', 'gen': 'sym1', 'n': 4 if q else 6})
             out.append({'feat': feat, 'mode': 'split_points', 'split': 'H', 'gen': 'symall', 'n': 3 if q else 4})
-            for sp in ('N', 'H', 'C1', 'C2'):
+            for sp in ('N', 'H', 'C1', 'C2', 'C3'):
                 out.append({'feat': feat, 'mode': 'split_words', 'split': sp, 'gen': 'sym1', 'n': 3 if q else 5})
             out.append({'feat': feat, 'mode': 'split_words', 'split': 'H', 'gen': 'symall', 'n': 3 if q else 4})
             out.append({'feat': feat, 'mode': 'break_apart', 'gen': 'sym1x', 'n': 3 if q else 5, 'tokens': TOK})
@@ -146,6 +146,9 @@ class C12(Harness):
         elif sp == 'C2':
             if len(chars) > 1:
                 pts[offs[1]] = True
+        elif sp == 'C3':
+            if len(chars) > 1:
+                pts[offs[len(chars) - 1]] = True
         return pts, offs
 
     def oracle(self, I, cfg, inp, out):
